@@ -23,6 +23,7 @@ import (
 	"sort"
 	"strings"
 	"time"
+	"unicode/utf8"
 
 	"github.com/milvus-io/milvus-proto/go-api/v2/msgpb"
 	"google.golang.org/protobuf/proto"
@@ -165,6 +166,17 @@ func (w *world) build(class string, slot int, seed int) request {
 	case "mutated": // byte-level mutation of a valid create; may or may not stay JSON / stay valid
 		valid, _ := w.baseCreate("task-mu", "coll_mu")
 		return request{method: "POST", body: mutate(jsonBody(valid), seed)}
+	case "nonutf8": // syntactically JSON, but a string that ends up as a metrics label is not valid UTF-8
+		bad := rapid.SampledFrom([]string{"\xff", "\xc7", "a\xf5b", "\xed\xa0\x80", "\xc0\xaf"}).Example(seed)
+		switch seed % 3 {
+		case 0:
+			return request{method: "POST", body: []byte(`{"request_type":"crea` + bad + `te","request_data":{}}`)}
+		case 1:
+			return request{method: "POST", body: []byte(`{"request_type":"` + bad + `","request_data":{"task_id":"x"}}`)}
+		default:
+			req, _ := w.baseCreate("task-PLACEHOLDER", "coll_u8")
+			return request{method: "POST", body: bytes.Replace(jsonBody(req), []byte("PLACEHOLDER"), []byte(bad), 1)}
+		}
 	case "wrongshape":
 		g := rapid.SampledFrom([]string{
 			`[]`, `null`, `1`, `"create"`, `true`, `{}`, `{"request_type":5}`, `{"request_type":"create","request_data":"x"}`,
@@ -545,7 +557,7 @@ func run(p *hx.Plan) []hx.Event {
 	}()
 	var evs []hx.Event
 	init := hx.Event{"op": "init", "i": 1, "n": len(p.Steps) + 1, "slot": 0, "method": "", "broken": false, "json_ok": true, "code": 0, "http": 0,
-		"has_msg": false, "has_data": false, "must_reject": false, "body": "", "answer": "", "err": ""}
+		"has_msg": false, "has_data": false, "must_reject": false, "body": "", "answer": "", "err": "", "body_utf8": true, "draw": 0}
 	w.observe(init)
 	evs = append(evs, init)
 	for i, st := range p.Steps {
@@ -561,7 +573,7 @@ func run(p *hx.Plan) []hx.Event {
 			w.remember(class, slot, r, a)
 		}
 		ev := hx.Event{"op": class, "i": i + 2, "n": len(p.Steps) + 1, "slot": slot, "method": r.method, "broken": a.broken, "http": a.status, "err": a.errText,
-			"must_reject": r.mustReject, "draw": seed}
+			"must_reject": r.mustReject, "draw": seed, "body_utf8": utf8.Valid(r.body)}
 		if len(r.body) <= 600 {
 			ev["body"] = base64.StdEncoding.EncodeToString(r.body)
 		} else {
